@@ -111,6 +111,21 @@ def run(rng, tier, model_ok):
             stats["div_zero"] += 1
         items.append((gens.render(e, rng), (lambda want: (lambda reply: check_value(reply, want)))(want)))
     stats["boundary_family"] = len(fam)
+    # the same arithmetic with every kind of blank between the tokens (all of Unicode White_Space that can stand in a query)
+    SP = ["\u00a0", "\u2009", "\u202f", "\u3000", "\u2003", "\u1680", "\u205f", "\u0085", "\t", "\n", "\r", "\x0b", "\x0c", "\u2028", "\u2029", "  "]
+    base = [(B("+", N("1"), N("23")), None), (B("/", N("10"), N("4")), None), (B("^", N("2"), N("-3")), None), (B("-", B("*", N("2"), N("3")), N("4")), None),
+            (B("*", N("1.5"), ("pct", "50")), None), (B("/", N("1"), N("0")), None)]
+    for e, _ in base:
+        try:
+            want = gens.evaluate(e)
+        except gens.DivZero:
+            want = None
+        plain = gens.render(e, rng, tight=False, ends=False)
+        plain = " ".join(plain.split())
+        for sp in SP:
+            items.append((plain.replace(" ", sp), (lambda want: (lambda reply: check_value(reply, want)))(want)))
+            items.append((sp + plain.replace(" ", sp + sp) + sp, (lambda want: (lambda reply: check_value(reply, want)))(want)))
+    stats["exotic_blank_queries"] = 2 * len(SP) * len(base)
     corpus = vlib.load_corpus("C01")
     items = [(q, None) for q in corpus] + items
     small = [(q, o) for q, o in items if len(q) <= 160]
